@@ -38,6 +38,8 @@ def run(ctx):
     ctx.attempt(spectral_dispatch_rule, ctx)
     ctx.attempt(plane_stress_linearity_rule, ctx)
     ctx.attempt(local_jacobian_rule, ctx)
+    ctx.attempt(free_energy_rule, ctx)
+    ctx.attempt(plane_stress_flow_rule, ctx)
     ctx.attempt(reducibility_rule, ctx)
     from ..shared import commit_idempotent_rule as _commit_idempotent_rule
 
@@ -1271,3 +1273,141 @@ def local_jacobian_rule(ctx, rid="R19.22"):
             r.fail(fJ.qualname, f"jacobian:{label}", fJ.file, fJ.lineno, "Behavior.__Jacobian", f"{label}: {bad}: the Newton matrix is not the derivative of the residual it is solved with - the returned algorithmic tangent is not the derivative of the returned stress")
         else:
             r.ok(f"{label}: J == dr/du ({nu} x {nu}) and D == dr/deps ({nu} x 6) as rational identities")
+
+
+def free_energy_rule(ctx, rid="R19.23"):
+    """'the dissipated work is non-negative': the dissipation inequality is stated with the free energy the behaviour
+    declares, D = sigma : d(eps) - d(psi); it is the thermodynamic forces DERIVED from psi that the evolution laws use.
+    `Behavior.Compute_psi` is interpreted on one symbolic point (plastic strain, accumulated plastic strain p, one back-strain,
+    one Maxwell branch; stored energies 1/2 H p^2 and 1/2 k alpha.alpha) and differentiated as a polynomial:
+      d psi / d eps == Compute_sigma,   d psi / d p == R(p) = H p,   d psi / d alpha == Compute_back_stress = k alpha,
+      d psi / d eps_p == -Compute_sigma  (the plastic strain is driven by the stress)."""
+    from types import SimpleNamespace
+    from fractions import Fraction as Q
+
+    from ..alg import Poly, is_zero
+    from ..xarray import XArray
+    from ..xeval import Interp, XObj, XRaise, EnumVal
+    from ..femchain import XFe, fe_hook_full
+
+    repo = ctx.repo
+    ci = repo.cls(BEH)
+    fP, fS, fX = ci.methods["Compute_psi"], ci.methods["Compute_sigma"], ci.methods["Compute_back_stress"]
+    r = ctx.rule(rid, "declared free energy: d psi/d eps == sigma, d psi/d eps_p == -sigma, d psi/d p == R(p), d psi/d alpha == back-stress, as polynomial identities on a point with every mechanism", min_instances=4)
+
+    class Slots:
+        _xeval_open = True
+
+        def __init__(self, table):
+            self.table = table
+
+        def _key(self, k):
+            return (k.name if isinstance(k, EnumVal) else str(k)).split(".")[-1]
+
+        def __getitem__(self, k):
+            return self.table[self._key(k)]
+
+        def get(self, k, default=None):
+            return self.table.get(self._key(k), default)
+
+        def __contains__(self, k):
+            return self._key(k) in self.table
+
+    lam, mu = Q(3), Q(2)
+    Cm = [[(lam if i < 3 and j < 3 else Q(0)) + (2 * mu if i == j else Q(0)) for j in range(6)] for i in range(6)]
+    H, kmod, g = Poly.var("H"), Poly.var("k"), Poly.var("g")
+    table, nz = {"eps_p": slice(0, 6), "p": slice(6, 7), "alpha0": slice(7, 13), "eps_v0": slice(13, 19)}, 19
+    eps = [Poly.var(f"e{i}") for i in range(6)]
+    z = [Poly.var(f"z{i}") for i in range(nz)]
+    fe_vec = lambda v: XFe((1, 1, len(v)), list(v))
+    vals = lambda a: [Poly.of(x) for x in XArray.from_nested(a).data]
+    hard = SimpleNamespace(psi=lambda p: XFe((1, 1), [H * vals(p)[0] * vals(p)[0] * Q(1, 2)]), R=lambda p: XFe((1, 1), [H * vals(p)[0]]))
+    comp = SimpleNamespace(modulus=kmod, psi=lambda a: XFe((1, 1), [sum((x * x for x in vals(a)), Poly()) * kmod * Q(1, 2)]), X=lambda a: fe_vec([kmod * x for x in vals(a)]))
+    CX = XFe((1, 1, 6, 6), [Poly.const(Cm[i][j]) for i in range(6) for j in range(6)])
+    obj = XObj(ci, {ci.mangle("__layout"): SimpleNamespace(slots=Slots(table), n=nz), ci.mangle("__hardening"): hard, ci.mangle("__kinematic"): (comp,),
+                    ci.mangle("__branches"): (SimpleNamespace(g=g, tau=Poly.var("tau")),), "_C_e_pg": lambda Ne, nPg: CX})
+    I = Interp(repo, max_steps=20_000_000)
+    I.call_hook = fe_hook_full
+    try:
+        psi = Poly.of(XArray.from_nested(I.call_function(fP, [fe_vec(eps), fe_vec(z)], self_obj=obj)).data[0])
+        sig = vals(I.call_function(fS, [fe_vec(eps), fe_vec(z)], self_obj=obj))
+        X = vals(I.call_function(fX, [fe_vec(z)], self_obj=obj))
+    except XRaise as e:
+        r.instance(fn=fP.qualname)
+        r.fail(fP.qualname, "free-energy", fP.file, fP.lineno, "Behavior.Compute_psi", f"raises {e}")
+        return
+    checks = [
+        ("d psi / d eps == sigma", [psi.diff(f"e{i}") - sig[i] for i in range(6)]),
+        ("d psi / d eps_p == -sigma", [psi.diff(f"z{i}") + sig[i] for i in range(6)]),
+        ("d psi / d p == R(p) (stored isotropic hardening evaluated at the accumulated plastic strain)", [psi.diff("z6") - H * z[6]]),
+        ("d psi / d alpha == back-stress", [psi.diff(f"z{7 + i}") - X[i] for i in range(6)]),
+    ]
+    for label, res in checks:
+        r.instance(fn=fP.qualname)
+        badk = [k for k, x in enumerate(res) if not is_zero(x)]
+        if not badk:
+            r.ok(label)
+        else:
+            r.fail(fP.qualname, f"free-energy:{label.split(' ==')[0]}", fP.file, fP.lineno, "Behavior.Compute_psi", f"{label} fails (component {badk[0]}: residual {res[badk[0]]!r}): the declared free energy is not the potential of the forces the evolution laws use - the dissipation sigma : d(eps) - d(psi) evaluated with it can be negative along an admissible path")
+
+
+def plane_stress_flow_rule(ctx, rid="R19.24"):
+    """'plane stress leaves no out-of-plane stress': the out-of-plane strain `Compute_strain_6d` returns makes sig_zz of
+    the MATERIAL'S OWN RESPONSE vanish - the response of `__Integrate_3d`, which flows and relaxes - not that of the elastic
+    closed form.  `Compute_strain_6d` (with the real plane-stress Newton) is interpreted in exact arithmetic with a stand-in
+    response sig = C_ep eps whose lateral coupling differs from the elastic C (a flowing material), for every combination of
+    (rate law present or not, Maxwell branches or not, dt = 0 or 1/10): sig_zz(C_ep, returned strain) must be zero."""
+    from types import SimpleNamespace
+    from fractions import Fraction as Q
+
+    from ..alg import Poly, is_zero
+    from ..xarray import XArray
+    from ..xeval import Interp, XObj, Opaque, XRaise
+    from ..femchain import XFe, fe_hook_full
+    from ..repo import FuncInfo
+
+    repo = ctx.repo
+    ci = repo.cls(BEH)
+    f = ci.methods["Compute_strain_6d"]
+    r = ctx.rule(rid, "plane-stress completion: sig_zz of the material's own (flowing) response vanishes at the strain Compute_strain_6d returns, with / without a rate law, with / without Maxwell branches, for dt = 0 and dt > 0", min_instances=8)
+
+    def iso(lam, mu):
+        return [[(lam if i < 3 and j < 3 else Q(0)) + (2 * mu if i == j else Q(0)) for j in range(6)] for i in range(6)]
+
+    Cel, Cep = iso(Q(3), Q(2)), iso(Q(1), Q(2))
+    for has_rate in (False, True):
+        for has_br in (False, True):
+            for dt in (Q(0), Q(1, 10)):
+                r.instance(fn=f.qualname)
+                eps2 = XFe((1, 1, 3), [Q(1, 100), Q(-1, 300), Q(1, 500)])
+
+                def resp(Cm, e6):
+                    e6 = XArray.from_nested(e6)
+                    return XFe((1, 1, 6), [sum((Cm[i][j] * e6[0, 0, j] for j in range(6)), Q(0)) for i in range(6)])
+
+                def hook(fn, args, kwargs):
+                    fi = fn if isinstance(fn, FuncInfo) else getattr(fn, "finfo", None)
+                    if fi is not None and fi.name.endswith("__Integrate_3d"):
+                        return (resp(Cep, args[0]), XFe((1, 1, 6, 6), [Cep[i][j] for i in range(6) for j in range(6)]), None, None)
+                    if fi is not None and fi.name == "Compute_sigma" and fi.cls is ci:
+                        return resp(Cel, args[0])
+                    return fe_hook_full(fn, args, kwargs)
+
+                I = Interp(repo)
+                I.call_hook = hook
+                obj = XObj(ci, {"dim": 2, "planeStress": True, ci.mangle("__yield"): SimpleNamespace(scale=1, P=None), ci.mangle("__rate"): Opaque("rate") if has_rate else None,
+                                ci.mangle("__branches"): (SimpleNamespace(g=Q(1, 4), tau=Q(1)),) if has_br else (), ci.mangle("__layout"): SimpleNamespace(n=7),
+                                "C": XArray((6, 6), [Cel[i][j] for i in range(6) for j in range(6)]), "_C_e_pg": lambda Ne, nPg: XFe((1, 1, 6, 6), [Cel[i][j] for i in range(6) for j in range(6)]),
+                                "State_zeros": lambda *a, **k: Opaque("z0")})
+                tag = f"{'rate law, ' if has_rate else ''}{'Maxwell branch, ' if has_br else ''}dt = {dt}"
+                try:
+                    e6 = XArray.from_nested(I.call_function(f, [eps2, Opaque("zOld"), dt], self_obj=obj))
+                except XRaise as e:
+                    r.fail(f.qualname, f"plane-stress-flow:{tag}", f.file, f.lineno, "Behavior.Compute_strain_6d", f"{tag}: raises {e}")
+                    continue
+                szz = sum((Cep[2][j] * e6[0, 0, j] for j in range(6)), Q(0))
+                szz = szz.const_value() if isinstance(szz, Poly) and szz.is_const() else szz
+                if isinstance(szz, (int, Q)) and abs(szz) < Q(1, 10**6):
+                    r.ok(f"{tag}: sig_zz of the material's response vanishes")
+                else:
+                    r.fail(f.qualname, f"plane-stress-flow:{'rate' if has_rate else 'norate'}:{'branch' if has_br else 'nobranch'}:dt{dt}", f.file, f.lineno, "Behavior.Compute_strain_6d", f"{tag}: at the returned strain the out-of-plane stress of the material's own response is {float(szz) if isinstance(szz, (int, Q)) else szz!r} (stress scale 1e-2): eps_zz was taken from the elastic closed form although the material flows - plane stress leaves an out-of-plane stress")
